@@ -7,6 +7,7 @@
 #include <string.h>
 #include <sys/wait.h>
 #include <algorithm>
+#include <functional>
 
 namespace sim {
 
@@ -191,7 +192,9 @@ void World::CheckTermination(const InvRecord& r) {
 
   if (r.plan.jobserver && NormalExit(r)) {
     stats->n["jobserver_builds"]++;
-    if (r.tokens_after != r.tokens_before)
+    if (r.tokens_after != r.tokens_before && r.res.err.find("ninja: fatal: ") != std::string::npos)
+      Report("C06", "token_leak_on_fatal", "ninja gave up with '" + r.res.err.substr(r.res.err.find("ninja: fatal: "), 60) + "' while holding " + S(r.tokens_before - r.tokens_after) + " jobserver token(s) and exited without returning them");
+    else if (r.tokens_after != r.tokens_before)
       Report("C06", "token_leak", "jobserver pool held " + S(r.tokens_before) + " tokens before ninja and " + S(r.tokens_after) + " after it exited with status " + S(r.res.exit_code));
   }
 
@@ -472,11 +475,103 @@ void World::CheckOutput(const InvRecord& r) {
   }
 }
 
+// ------------------------------------------------------------------ C17
+void World::CheckCycles(const InvRecord& r, const std::set<std::string>& dd_at_start) {
+  if (!r.plan.tool.empty()) return;
+  if (r.res.end != ProcResult::kExit) return;
+  // inputs of a statement: 0 = what is certain from the start (manifest + dyndep
+  // source files that exist), 1 = everything that may become known
+  auto inputs = [&](int id, int level) {
+    const Stmt& s = sc.stmts[id];
+    std::vector<std::string> v;
+    v.insert(v.end(), s.ins.begin(), s.ins.end());
+    v.insert(v.end(), s.imp_ins.begin(), s.imp_ins.end());
+    v.insert(v.end(), s.oo_ins.begin(), s.oo_ins.end());
+    if (const DyndepEntry* e = sc.DyndepFor(id)) {
+      const DyndepFile* d = sc.FindDyndep(s.dyndep);
+      bool certain = d && d->producer < 0 && dd_at_start.count(s.dyndep);
+      if (level == 1 || certain) v.insert(v.end(), e->imp_ins.begin(), e->imp_ins.end());
+    }
+    if (level == 1) {
+      v.insert(v.end(), s.hidden.begin(), s.hidden.end());
+      auto rh = reported_hidden.find(id);
+      if (rh != reported_hidden.end()) v.insert(v.end(), rh->second.begin(), rh->second.end());
+    }
+    return v;
+  };
+  // is a cycle reachable from the requested targets (validations are extra roots)?
+  auto cyclic = [&](int level) {
+    std::vector<std::string> roots = EffectiveTargets(r.plan);
+    std::map<int, int> color;   // 1 on stack, 2 done
+    bool found = false;
+    std::vector<std::string> pending = roots;
+    std::function<void(int)> dfs = [&](int id) {
+      if (found) return;
+      color[id] = 1;
+      for (auto& p : inputs(id, level)) {
+        int pr = sc.Producer(p);
+        if (pr < 0) continue;
+        if (color[pr] == 1) { found = true; return; }
+        if (color[pr] == 0) dfs(pr);
+        if (found) return;
+      }
+      for (auto& v : sc.stmts[id].validations) pending.push_back(v);
+      color[id] = 2;
+    };
+    while (!pending.empty() && !found) {
+      std::string t = pending.back(); pending.pop_back();
+      int pr = sc.Producer(t);
+      if (pr >= 0 && color[pr] == 0) dfs(pr);
+    }
+    return found;
+  };
+  std::string all = r.res.err + "\n" + r.res.out;
+  size_t at = all.find("dependency cycle: ");
+  bool reported = at != std::string::npos;
+  bool must = cyclic(0), may = cyclic(1);
+  if (may) stats->nontrivial["C17"] = true;
+  if (!sc.stmts.empty()) for (const Stmt& s : sc.stmts) if (!s.validations.empty()) for (auto& v : s.validations) { int pv = sc.Producer(v); if (pv >= 0 && StmtClosure(pv).count(s.id)) stats->nontrivial["C17"] = true; }
+  if (reported) {
+    stats->n["cycle_reported"]++;
+    size_t nl = all.find('\n', at);
+    std::string path = all.substr(at + 18, nl == std::string::npos ? std::string::npos : nl - at - 18);
+    size_t w = path.find(" [-w phonycycle");
+    if (w != std::string::npos) path.erase(w);
+    if (!path.empty() && path.back() == '.') path.pop_back();
+    std::vector<std::string> hops;
+    size_t i = 0;
+    for (;;) {
+      size_t j = path.find(" -> ", i);
+      hops.push_back(path.substr(i, j == std::string::npos ? std::string::npos : j - i));
+      if (j == std::string::npos) break;
+      i = j + 4;
+    }
+    if (!may) Report("C17", "false_cycle", "ninja reported 'dependency cycle: " + path + "' but the graph needed for the targets is acyclic");
+    if (hops.size() < 2 || hops.front() != hops.back())
+      Report("C17", "bad_cycle_path", "the reported cycle '" + path + "' does not end where it starts");
+    for (size_t h = 0; h + 1 < hops.size(); h++) {
+      int pr = sc.Producer(hops[h]);
+      bool ok = false;
+      if (pr >= 0) for (auto& p : inputs(pr, 1)) if (p == hops[h + 1]) ok = true;
+      if (!ok) Report("C17", "bad_cycle_path", "the reported cycle '" + path + "' contains the hop '" + hops[h] + " -> " + hops[h + 1] + "' which is not a dependency in the graph");
+    }
+    for (const SpawnRec& x : r.spawns)
+      for (auto& hp : hops) if (sc.Producer(hp) == x.stmt && x.epoch == r.epochs)
+        Report("C17", "cycle_missed", "statement " + S(x.stmt) + " on the reported cycle was started");
+    if (r.res.exit_code == 0) Report("C17", "cycle_missed", "ninja reported a dependency cycle but exited with status 0");
+  } else if (must) {
+    // other legitimate early errors (e.g. a missing source) come first
+    if (r.res.exit_code == 0 || r.res.err.find("ninja: error:") == std::string::npos || !r.spawns.empty())
+      Report("C17", "cycle_missed", "the graph needed for the targets contains a dependency cycle, but ninja " + std::string(r.res.exit_code == 0 ? "exited with status 0" : "did not report it") + (r.spawns.empty() ? "" : " and started commands"));
+  }
+}
+
 void World::CheckAll(InvRecord& r) {
   CheckTermination(r);
   CheckOrdering(r);
   CheckFailures(r);
   CheckRsp(r);
+  CheckCycles(r, r.dd_at_start);
   CheckInterrupt(r);
   CheckOutput(r);
   CheckContent(r, "C01");
